@@ -385,6 +385,51 @@ def bounded_transport(tier, seed):
             "nontrivial": cases, "failures": failures}
 
 
+def _run_odd_type(typ):
+    import sys
+    import types
+    import mosaik
+    import mosaik_api_v3
+    from mosaik.exceptions import ScenarioError
+    meta = {"api_version": "3.0", "type": typ, "models": {"M": {"public": True, "params": [], "attrs": ["x"]}}}
+
+    class Sim(mosaik_api_v3.Simulator):
+        def __init__(self):
+            super().__init__(meta)
+
+        def init(self, sid, time_resolution=1.0, **kw):
+            return self.meta
+
+        def create(self, num, model, **kw):
+            return [{"eid": f"e{i}", "type": model} for i in range(num)]
+
+        def step(self, time, inputs, max_advance):
+            return None
+
+        def get_data(self, outputs):
+            return {}
+    mod = types.ModuleType("_c13_sims")
+    mod.Sim = Sim
+    sys.modules["_c13_sims"] = mod
+    w = mosaik.World({"D": {"python": "_c13_sims:Sim"}}, skip_greetings=True)
+    try:
+        try:
+            w.start("D").M()
+        except ScenarioError:
+            return "rejected at start"
+        try:
+            w.run(until=3, print_progress=False)
+            return "run() finished normally"
+        except BaseException as e:  # noqa: BLE001
+            return f"error {type(e).__name__}"
+    finally:
+        if not w.loop.is_closed():
+            try:
+                w.shutdown()
+            except BaseException:  # noqa: BLE001
+                pass
+
+
 def bounded_reply_validation(tier, seed):
     """C13 end to end: one API-violating reply per run (a next step that is not later / not an int, an output time before the step
     time) at the k-th step / get_data of every simulator, with debug mode off and on: run() must end with a SimulationError that
@@ -422,5 +467,13 @@ def bounded_reply_validation(tier, seed):
                                                      f"SimulationError naming {role}-0", "case": {"scenario": name, "debug": debug, **fault}})
                             if len(failures) >= 5:
                                 break
+    # a simulator that announces its type with another capitalisation and, treated as time-based, violates the API (no next step):
+    # it must be turned away at start or stopped by the reply validation -- whoever reads the type must read it the same way
+    for typ in ("Time-based", "TIME-BASED", "time-based"):
+        cases += 1
+        nontrivial += 1
+        r = _run_odd_type(typ)
+        if r not in ("rejected at start", "error SimulationError"):
+            failures.append({"desc": f"a simulator announcing type {typ!r} whose step() returns no next step: {r}", "case": {"type": typ}})
     return {"bound": f"scenarios {names} x every simulator x step / get_data #0, #1 x (next step same / earlier / float / string; output time before "
-                     "the step time) x debug off / on", "cases": cases, "nontrivial": nontrivial, "failures": failures[:5]}
+                     "the step time) x debug off / on; plus the type announced as Time-based / TIME-BASED / time-based with a missing next step", "cases": cases, "nontrivial": nontrivial, "failures": failures[:5]}
